@@ -103,6 +103,41 @@ def generate(rng, tier):
             for unit, reps in (("\u00e9", 200), ("\U0001f642", 90), ("a\u00e9\U0001f642\u3000", 40)):
                 tok = "a" * k + unit * reps
                 cases.append({"text": "statement ok\nselect 0\n\n" + (ctx % tok) + "\n" + body, "meta": {"stream": "long-multibyte"}})
+    # duration tokens: whatever a number parser might take (fractions, exponents, nan / inf, signs, separators, very long digit strings)
+    # with every unit, in every place a duration is read; the accepted language is exactly humantime's, everything else is a located error
+    nums = ["nan", "NaN", "inf", "-inf", "infinity", "1e20", "1e400", "1E3", "0.5", "1.5", ".5", "5.", "1_000", "+1", "-1", "-0", "0x10", "1,5",
+            "9" * 20, "9" * 40, "1" + "0" * 400, "0" * 50 + "1", "18446744073709551615", "18446744073709551616", "1e", "e1", "1ee2", "0.000000001", "4e-3"]
+    units = ["", "s", "ms", "us", "ns", "m", "min", "h", "d", "w", "M", "y", "sec", "hours", " s"]
+    dctx = ["sleep %s", "statement ok retry 3 backoff %s", "query I retry 2 backoff %s", "system ok retry 1 backoff %s",
+            "statement error retry 2 backoff %s", "query I rowsort lbl retry 2 backoff %s"]
+    for ctx in dctx:
+        for nm in nums:
+            for u in (units if tier != "quick" else rng.sample(units, 6) + ["s"]):
+                cases.append({"text": "statement ok\nselect 0\n\n" + (ctx % (nm + u)) + "\n" + body, "meta": {"stream": "duration-token"}})
+    # the same malformed lines with other blanks between (and around) the tokens: header recognition splits at Unicode white space, so
+    # whatever is rejected with single blanks is rejected - at the same line, for the same reason - with tabs, runs of blanks, U+00A0, U+3000
+    blanks = ["\t", "  ", " \t ", "\u00a0", "\u3000", "\x0b", "\x0c", "\u2003"]
+    bad_lines = [b for b in CATALOGUE if "\t" not in b]
+    for _ in range(1200 if tier == "quick" else 40000):
+        bad = rng.choice(bad_lines)
+        first, sep, tail = bad.partition("\n")
+        toks = first.split(" ")
+        if len(toks) < 2:
+            continue
+        mode = rng.random()
+        if mode < 0.5:
+            k = rng.randrange(len(toks) - 1)
+            line = " ".join(toks[:k + 1]) + rng.choice(blanks) + " ".join(toks[k + 1:])
+        else:
+            line = toks[0] + "".join(rng.choice(blanks + [" "]) + t for t in toks[1:])
+        if rng.random() < 0.2:
+            line += rng.choice(blanks)
+        blk = line + sep + tail
+        blk = blk if blk.endswith("\n") else blk + "\n"
+        items = sltgen.gen_script(rng, n=rng.randint(0, 2))
+        lay = sltgen.Layout(rng, plain=True)
+        pre, _ = sltgen.render(items, lay)
+        cases.append({"text": pre + blk + "\n" + body, "meta": {"stream": "blank-variant", "line": rust_nlines(pre) + 1, "bad": bad}})
     # arbitrary text and fixture mutations
     fixtures = [open(f).read() for f in sorted(glob.glob("/repo/tests/**/*.slt", recursive=True))]
     alphabet = list("abq 1\n\n\t#-") + ["\r", "\0", "\x85", " ", " ", "é", "🙂", "----", "statement ok", "query I", "\r\n", "retry", "error"]
